@@ -36,6 +36,12 @@ def run(spec):
         mod = importlib.import_module('rv.props.' + prop.lower())
         mod.setup(concepts, spec)
         reach.install(spec['repo'])
+        if spec.get('strict_warnings'):
+            import warnings
+            # a warning attributed to the library's own modules is an error, as under `-W error`;
+            # warnings attributed to the caller (deprecations of a calling style) are the caller's business
+            warnings.filterwarnings('error', module=r'concepts(\..*)?$')
+            col.strict_warnings = True
     except core.HarnessError as e:
         col.harness_error('setup', e)
         result['status'] = 'setup-failed'
